@@ -41,3 +41,20 @@ package dirhash
 //@   allocates
 //@   call (*zip.File).Open requires [C19] opens_recorded_entry: has(zfiles, name) && arg_f == zfiles[name]
 //@   props C19
+
+//@ # HashZip: the hash function receives exactly the entry names of the archive, one per entry, in order and unaltered
+//@ # (no entry is skipped, no name is rewritten), and the entry recorded for a name is the one opened for it
+//@ func HashZip
+//@   funcparam hash(files []string, open "func(string) (io.ReadCloser, error)") (h string, err error)
+//@     allocates
+//@   end
+//@   modifies *
+//@   allocates
+//@   call hash requires [C19] every_entry_listed_by_its_name: len(arg_files) == len(z.File) && (forall k int :: 0 <= k && k < len(z.File) ==> arg_files[k] == z.File[k].Name)
+//@   call hash requires [C19] entries_recorded_under_their_names: forall k int :: 0 <= k && k < len(z.File) ==> has(zfiles, z.File[k].Name)
+//@   loop 0:
+//@     invariant 0 - 1 <= @idx && @idx < len(z.File) && z != nil && zfiles != nil && len(files) == @idx + 1 && z.File == pre(z.File)
+//@     invariant forall k int :: 0 <= k && k < len(z.File) ==> z.File[k] != nil && z.File[k].Name == pre(z.File[k].Name)
+//@     invariant forall k int :: 0 <= k && k <= @idx ==> files[k] == z.File[k].Name && has(zfiles, z.File[k].Name)
+//@     decreases len(z.File) - @idx
+//@   props C19
